@@ -9,6 +9,8 @@ import (
 
 	"verif/mc/core"
 	"verif/mc/env"
+	"verif/mc/gen"
+	"verif/mc/spec"
 )
 
 // C06 — ReadPacket consumes exactly one frame from the stream.
@@ -22,7 +24,7 @@ func init() {
 		ID:    "C06",
 		Title: "ReadPacket consumes exactly one frame from the stream",
 		Level: "model_checking",
-		Rule: "explicit enumeration of operation histories on the real decoder: every sequence of length 1..2 over the whole frame alphabet (valid minimal+rich frames of all 15 types, short forms, remaining-length-0 frames of all 16 first-byte types, content-malformed frames) and every sequence of length 3 over a sub-alphabet (quick: 16 frames; thorough: the whole alphabet), each followed by every tail in {none, 00, ff ff ff ff ff, first byte of a header, a whole further frame}, and each handed to ReadPacket through five io.Reader implementations (a counting reader, bufio.Reader with a 16-byte and a 4096-byte buffer, bytes.Reader, bytes.Buffer — a decoder may special-case what a reader can do). " +
+		Rule: "explicit enumeration of operation histories on the real decoder: every sequence of length 1..2 over the whole frame alphabet (valid minimal+rich frames of all 15 types, short forms, remaining-length-0 frames of all 16 first-byte types, content-malformed frames) and every sequence of length 3 over a sub-alphabet (quick: 18 frames incl. a 5 000-byte frame; thorough: the whole alphabet), each followed by every tail in {none, 00, ff ff ff ff ff, first byte of a header, a whole further frame}, and each handed to ReadPacket through five io.Reader implementations (a counting reader, bufio.Reader with a 16-byte and a 4096-byte buffer, bytes.Reader, bytes.Buffer — a decoder may special-case what a reader can do). " +
 			"After each call: bytes drawn from the counting reader == 1+|remaining length field|+remaining length of that frame; result i equals the result of reading frame i alone (history and tail independence); with no tail the call after the last frame returns an error satisfying errors.Is(err, io.EOF). " +
 			"states = distinct (sequence prefix) stream positions visited, transitions = ReadPacket calls; distinct_nontrivial = distinct (sequence, tail) of length >= 2.",
 		Assumptions: []string{
@@ -135,7 +137,7 @@ func c06Alone(frames []CFrame) []string {
 // c06Sub is the sub-alphabet used for length-3 sequences in the quick tier.
 func c06Sub(frames []CFrame) []int {
 	want := map[string]bool{"CONNECT.min": true, "PUBLISH.rich": true, "PUBACK.rl2": true, "PUBREL.rl3": true, "SUBSCRIBE.min": true,
-		"SUBACK.min": true, "PINGREQ.min": true, "DISCONNECT.rl0": true, "DISCONNECT.rl1": true, "AUTH.rich": true, "rl0.type0": true,
+		"SUBACK.min": true, "PINGREQ.min": true, "publish.5000B": true, "body2.type12": true, "DISCONNECT.rl0": true, "DISCONNECT.rl1": true, "AUTH.rich": true, "rl0.type0": true,
 		"rl0.type3": true, "bad.connack.unknownprop": true, "bad.puback.cut": true, "type0.body": true, "pingreq.nonminimal-rl": true}
 	var idx []int
 	for i, f := range frames {
@@ -146,8 +148,15 @@ func c06Sub(frames []CFrame) []int {
 	return idx
 }
 
+func c06Frames() []CFrame {
+	frames := append([]CFrame{}, streamCorpus()...)
+	// a frame that does not fit common reader buffers (4096)
+	p := &spec.Packet{Type: 3, Topic: []byte("big"), Payload: gen.Content('L', 5000)}
+	return append(frames, CFrame{Name: "publish.5000B", B: mustEncode(p, spec.Form{}), Valid: true, Type: 3})
+}
+
 func runC06(x *core.Ctx) {
-	frames := streamCorpus()
+	frames := c06Frames()
 	alone := c06Alone(frames)
 	n := len(frames)
 	all := make([]int, n)
@@ -210,6 +219,6 @@ func runC06(x *core.Ctx) {
 }
 
 func replayC06(c core.Case) *core.Finding {
-	frames := streamCorpus()
+	frames := c06Frames()
 	return c06Exec(frames, c.Choices, paramInt(c.Params, "tail"), c06Alone(frames), paramInt(c.Params, "reader"))
 }
